@@ -36,6 +36,9 @@ def demo_cmd(path):
     cmd = "\n".join(block)
     import re as _re
     cmd = _re.sub(r";\s*echo\s+[^\n;&|]*\$\?[^\n]*$", "", cmd)
+    mo = _re.search(r"-o\s+(\S+)\s*$", cmd)
+    if mo and "&&" not in cmd.split("-o")[-1]:
+        cmd = cmd + " && " + mo.group(1)      # build-only block: run the produced binary as well
     return cmd
 os.makedirs("/tmp/seedres", exist_ok=True)
 if os.path.exists("/tmp/seedres/%s-%s.json" % (pid, m)) and not os.environ.get("SEED_FORCE"):
